@@ -184,7 +184,8 @@ func runFootprint(c *core.Ctx, tab *Table) error {
 //	           elements, one call handed the receiver itself: x.m(x)
 //	cross      (the same methods) two instances of 5 elements and two
 //	           goroutines, a.m(b) against b.m2(a), crossRounds times in lockstep
-//	           rounds, for every such method m2 from m on (event field "with")
+//	           rounds (up to 4 attempts on fresh instances), for every such
+//	           method m2 from m on (event field "with")
 var wdVariants = []string{"populated", "empty", "growing", "full", "self", "cross"}
 
 const crossRounds = 3000
@@ -343,14 +344,18 @@ func runWatchdog(c *core.Ctx, tab *Table) error {
 						if m2 < m || !takesPeer(first, m2) || timeouts >= 6 {
 							continue
 						}
-						out, err := cross(tn, m, m2)
-						if err != nil {
-							return err
+						// the two calls wait for each other only when they really overlap: a few
+						// attempts on fresh instances (each bounded in time), until one hangs
+						var out string
+						for attempt := 0; attempt < 4 && out != "timeout"; attempt++ {
+							if out, err = cross(tn, m, m2); err != nil {
+								return err
+							}
 						}
 						if out == "timeout" {
 							timeouts++
 						}
-						t.Emit(core.Ev{"ev": "Outcome", "t": tn, "m": m, "with": m2, "out": out, "on": variant, "calls": 2 * crossRounds})
+						t.Emit(core.Ev{"ev": "Outcome", "t": tn, "m": m, "with": m2, "out": out, "on": variant, "calls": 2 * crossRounds, "attempts": 4})
 						c.Count(fmt.Sprintf("wd|%s|%s|%s|%s", tn, m, variant, m2), true)
 					}
 					continue
